@@ -1,10 +1,12 @@
 (* Extraction of the executable models to OCaml.  ExtrOcamlBasic only: N, Z, positive, nat stay inductive. *)
 From Coq Require Import Extraction ExtrOcamlBasic.
-From FMP Require Import Base.Bytes Model.Generated Model.Msgpack Model.Frame Model.Remote Model.Uri.
+From FMP Require Import Base.Bytes Model.Generated Model.Events Model.Props Model.Msgpack Model.Frame Model.Remote Model.Uri.
 
 Extraction Language OCaml.
 Extraction "model.ml"
   bytes_eqb
+  Props.accepts Props.notifier_step Props.seqno_step Props.cancel_step Props.order_step Props.c13_pred
+  Props.frames_whole Props.refused_write_nothing Props.c03_pred
   Msgpack.enc Msgpack.enc_alt Msgpack.decode Msgpack.wf_val Msgpack.dec_int32
   Frame.frame_val Frame.spec_bytes Frame.encode_value Frame.encode_frame Frame.next_frame Frame.run_frames
   Frame.continues Frame.outcome_of_msg Frame.split_method Frame.has_compressor
